@@ -25,6 +25,10 @@ type EDIDelims struct {
 	Rep     string `json:"rep,omitempty"`
 	Release string `json:"release,omitempty"`
 	IgnCRLF bool   `json:"ign_crlf,omitempty"`
+	// EOL (only with IgnCRLF): CR/LF bytes written after every segment delimiter; removed before tokenizing. The long
+	// form is a run of 120 such bytes (more than the 100 consecutive empty reads a bufio consumer tolerates, should a
+	// filtering reader ever turn CR/LF-only reads into empty ones).
+	EOL string `json:"eol,omitempty"`
 }
 
 // Shape describes format, layout and transform of a case.
@@ -161,6 +165,9 @@ func DrawShape(t *rapid.T, o ShapeOpts) Shape {
 		}
 		if !strings.Contains(d.Seg, "\n") {
 			d.IgnCRLF = rapid.Bool().Draw(t, "ignCRLF")
+			if d.IgnCRLF {
+				d.EOL = rapid.SampledFrom([]string{"", "\n", "\r\n", "\r\n", "\n\n", strings.Repeat("\r\n", 60)}).Draw(t, "ediEOL")
+			}
 		}
 		s.EDI = &d
 		s.Envelope = rapid.Bool().Draw(t, "envelope")
@@ -493,6 +500,21 @@ func (s Shape) transformDecls() obj {
 			obj{"const": "x.length + null.boom"}, obj{"const": "x"}, obj{"xpath": "c0", "no_trim": true}}}}
 		fields["jz"] = obj{"custom_func": obj{"name": "javascript", "args": []interface{}{
 			obj{"const": "typeof x === 'undefined' ? 'clean' : 'leak:' + x"}}}}
+		// twins that differ in ignore_error only, the lenient one evaluated first (children run in key order): for a c0 of
+		// 3, 7, 11, ... bytes the call fails - ignored by the first, failing the record in the second
+		twin := func(ignore bool) obj {
+			cf := obj{"name": "javascript", "args": []interface{}{
+				obj{"const": "(function(){ if (x.length % 4 === 3) { throw new Error('len') } return x.length })()"}, obj{"const": "x"}, obj{"xpath": "c0", "no_trim": true}}}
+			if ignore {
+				cf["ignore_error"] = true
+			}
+			return obj{"custom_func": cf}
+		}
+		// a script that needs a deep call stack (resource limits must not differ between pooled and fresh VMs)
+		fields["jdeep"] = obj{"custom_func": obj{"name": "javascript", "args": []interface{}{
+			obj{"const": "(function f(n){ return n ? 1 + f(n - 1) : 0 })(1100 + 150 * x.length)"}, obj{"const": "x"}, obj{"xpath": "c0", "no_trim": true}}}}
+		fields["ie_a"] = twin(true)
+		fields["ie_b"] = twin(false)
 		fields["pjs"] = obj{"xpath": "..", "custom_func": obj{"name": "javascript_with_context", "args": []interface{}{
 			obj{"const": "JSON.stringify(JSON.parse(_node)).length"}}}}
 		decls["tpl"] = obj{"object": obj{"first": obj{"xpath": "c0"}, "js": obj{"custom_func": obj{"name": "javascript", "args": []interface{}{
@@ -931,9 +953,13 @@ func (s Shape) RenderParts(recs []Rec) (pro string, parts []string, epi string) 
 		}
 	case "edi":
 		d := s.EDI
+		segEnd := d.Seg
+		if d.IgnCRLF {
+			segEnd += d.EOL
+		}
 		if s.Envelope {
-			pro = "ISA" + d.Elem + "snd" + d.Seg
-			epi = "IEA" + d.Elem + "1" + d.Seg
+			pro = "ISA" + d.Elem + "snd" + segEnd
+			epi = "IEA" + d.Elem + "1" + segEnd
 		}
 		for _, r := range recs {
 			var b strings.Builder
@@ -946,13 +972,13 @@ func (s Shape) RenderParts(recs []Rec) (pro string, parts []string, epi string) 
 					b.WriteString(s.ediEscape(v))
 				}
 			}
-			b.WriteString(d.Seg)
+			b.WriteString(segEnd)
 			for _, sub := range r.Subs {
 				b.WriteString("SUB")
 				for _, v := range sub {
 					b.WriteString(d.Elem + s.ediEscape(v))
 				}
-				b.WriteString(d.Seg)
+				b.WriteString(segEnd)
 			}
 			parts = append(parts, b.String())
 		}
